@@ -111,7 +111,13 @@ def _toks(e, pm, rng):
             if seg[0] == 's':
                 s += seg[1].replace('\\', '\\\\').replace(q, '\\' + q).replace('{', '{{').replace('}', '}}')
             else:
-                s += '{' + ''.join(join_tokens(toks(seg[1], 0, 'min', rng), 'min', rng)) + '}'
+                inner = ''.join(join_tokens(toks(seg[1], 0, 'min', rng), 'min', rng))
+                # '{{' and '}}' are escaped braces: keep a brace of the expression apart from the delimiters
+                if inner.startswith('{'):
+                    inner = ' ' + inner
+                if inner.endswith('}'):
+                    inner = inner + ' '
+                s += '{' + inner + '}'
         return [s + q]
     raise ValueError(k)
 
